@@ -376,6 +376,18 @@ func replay(b vh.Behaviour, res *vh.Result, cont bool) {
 			r.violate(sig, fmt.Sprintf("after the witness continuation (switch at round %d, now round %d) operators %v are undecided", contStart, maxRound, undecided))
 		}
 	}
+	if vh.Bool(b.Params, "expectSyncDecided") {
+		// C07 (2): fault-free synchronous run - everybody decides in round 1 on the leader's value
+		leader := kit.OpID((toInt(b.Params["LeaderOffset"]) % r.w.N) + 1)
+		want := r.w.StartVal[leader]
+		for _, h := range r.w.Honest {
+			if n := r.w.Project(h); !n.Decided || n.Round != 1 || n.Dval != want {
+				r.violate("C07:sync-run-not-decided-in-first-round", fmt.Sprintf("fault-free synchronous run, leader %d value %s: operator %d decided=%v round=%d value=%s",
+					leader, want, h, n.Decided, n.Round, n.Dval))
+			}
+		}
+		res.Counters["sync_runs"]++
+	}
 	res.Behaviours++
 	res.Steps += len(b.Steps)
 	if nontrivial {
@@ -398,6 +410,8 @@ func main() {
 	in := flag.String("in", "", "behaviours NDJSON")
 	out := flag.String("out", "", "result JSON")
 	cont := flag.Bool("cont", false, "behaviours come from QBFTCont (check termination of continuations)")
+	search := flag.Bool("search", false, "treat every behaviour as an asynchronous prefix and search a deciding timely continuation (C07)")
+	seed := flag.Int64("seed", 1, "seed for the random continuation orders")
 	flag.Parse()
 	res := vh.NewResult()
 	behs, err := vh.ReadBehaviours(*in)
@@ -405,7 +419,14 @@ func main() {
 		fmt.Fprintln(os.Stderr, err)
 		os.Exit(3)
 	}
-	for _, b := range behs {
+	for k, b := range behs {
+		if *search {
+			searchContinuation(b, res, *seed+int64(k))
+			res.Behaviours++
+			res.Steps += len(b.Steps)
+			res.Nontrivial++
+			continue
+		}
 		replay(b, res, *cont)
 	}
 	if len(behs) > 0 {
